@@ -65,6 +65,8 @@ type shardState struct {
 	total    uint64
 	outcomes map[uint64]struct{}
 	samples  []json.RawMessage
+	crashes  int
+	capped   bool
 }
 
 // RunCheck is the parent side of `vcheck run`.
@@ -130,6 +132,7 @@ func RunCheck(c *Check, tier string, seed int64) int {
 	outcomes := map[uint64]struct{}{}
 	var samples []json.RawMessage
 	var enumerated uint64
+	cappedShards := 0
 	for _, st := range shards {
 		add := func(s *stats) {
 			if s == nil {
@@ -156,6 +159,9 @@ func RunCheck(c *Check, tier string, seed int64) int {
 		}
 		if st.total > enumerated {
 			enumerated = st.total
+		}
+		if st.capped {
+			cappedShards++
 		}
 	}
 
@@ -218,7 +224,8 @@ func RunCheck(c *Check, tier string, seed int64) int {
 		"enumerated":          enumerated,
 		"rule":                c.Rule,
 		"samples":             samples,
-		"exhaustive":          true,
+		"exhaustive":          cappedShards == 0,
+		"shards_stopped_after_repeated_crashes": cappedShards,
 		"bound":               c.Bounds[tier],
 		"distinct_outcomes":   len(outcomes),
 		"unconstrained_zones": tot.Zones,
@@ -334,7 +341,7 @@ func runAttempt(c *Check, tier string, st *shardState, n int, runDir string, bud
 				cmd.Process.Kill()
 				return
 			}
-			if rss > 6<<30 {
+			if rss > 2<<30 {
 				killed = "oom"
 				cmd.Process.Kill()
 				return
@@ -400,6 +407,13 @@ func runAttempt(c *Check, tier string, st *shardState, n int, runDir string, bud
 	v.sig()
 	res.crash = &v
 	st.resume = caseIdx + 1
+	st.crashes++
+	if st.crashes >= 8 {
+		// the property is violated many times over; attributing every further crashing case
+		// one worker restart at a time would take unboundedly long. Stop this shard.
+		st.done = true
+		st.capped = true
+	}
 	return res
 }
 
